@@ -134,3 +134,32 @@ def dump(obj, path: Path) -> None:
     path.parent.mkdir(parents=True, exist_ok=True)
     with open(path, "w") as f:
         json.dump(obj, f, separators=(",", ":"))
+
+
+def hook_kernel_entry(wrap) -> None:
+    """Observe every entry into a compiled kernel of the tree under test, however and whenever the tree stores the
+    function pointer: TensorMethod._evaluate becomes a class-level property whose getter hands out
+    wrap(method, pointer) (cached per pointer) and whose setter keeps what the tree assigns (in __init__, lazily on
+    the first call, ...).  `wrap` may be replaced by calling this again."""
+    import tensora.compile._tensor_method as tmod
+
+    cls = tmod.TensorMethod
+    cls._vf_wrap = staticmethod(wrap)
+    if getattr(cls, "_vf_hooked", False):
+        return
+
+    def _get(self):
+        inner = self.__dict__.get("_vf_inner")
+        if inner is None:
+            return None
+        cache = self.__dict__.get("_vf_cache")
+        if cache is None or cache[0] is not inner or cache[1] is not cls._vf_wrap:
+            cache = (inner, cls._vf_wrap, cls._vf_wrap(self, inner))
+            self.__dict__["_vf_cache"] = cache
+        return cache[2]
+
+    def _set(self, value):
+        self.__dict__["_vf_inner"] = value
+
+    cls._evaluate = property(_get, _set)
+    cls._vf_hooked = True
